@@ -175,8 +175,9 @@ class Exec:
         # pristine twins of every pool object, never handed to the edited op: the fresh op of a solve step is built from
         # them, so that damage done to a constraint or objective object by an earlier step cannot hide on both sides
         self.vars2, self.cons2, self.objs2 = build_pool(self.spec)
-        self.cvars = [sorted(v.name for v in c.variables()) for c in self.cons]
-        self.ovars = [sorted(v.name for v in _objvars(f)) for f in self.objs]
+        # (variables() of a well-formed constraint or function never raises: an exception here is the library's)
+        self.cvars = self.guarded("variables() of the pool constraints", lambda: [sorted(v.name for v in c.variables()) for c in self.cons])
+        self.ovars = self.guarded("variables() of the pool objectives", lambda: [sorted(v.name for v in _objvars(f)) for f in self.objs])
         init = [self.cons[i] for i in case["init_cons"]]
         obj = self.objs[case["init_obj"]]
         form = case["init_form"]
@@ -222,7 +223,7 @@ class Exec:
                     name, len(g), [self._cid(c) for c in g], len(w), [self._cid(c) for c in w]))
         # the pool objects themselves are not modified by anything the op does with them
         for i, c in enumerate(self.cons):
-            now = sorted(v.name for v in c.variables())
+            now = self.guarded("variables() of pool constraint %d" % i, lambda: sorted(v.name for v in c.variables()))
             if now != self.cvars[i] or any(not any(v is w for w in self.vars) for v in c.variables()):
                 self.fail(where, "constraint %d of the pool now involves the variables %s, it was built over %s" % (i, now, self.cvars[i]))
         for i, f in enumerate(self.objs):
